@@ -103,6 +103,11 @@ def run(F, R):
         if inner:
             wrappers[name] = inner
     r5_failure_window(F, R, drivers)
+    # R9: R5 takes finish_init as the point where the device goes live: begin_init must not already set DRIVER_OK and
+    # no transport may override either (status sequence shared with C08.H0/H1)
+    from .C08 import h0 as _h0, h1_begin_finish as _h1
+    _h0(F, RuleProxy(R, {'H0': 'R9'}))
+    _h1(F, RuleProxy(R, {'H1': 'R9'}))
     # R6: a driver-owned buffer that is still posted is not released: buffers parked in driver state leave it only after
     # the completion was consumed (shared with C04.P8)
     from .C04 import p8_release_after_completion
@@ -343,6 +348,14 @@ def r4_raii(F, R, M, rule='R4'):
             # `if paddr == 0` (comparison) or `match .. { (0, _) => .. }` (switch on the component itself, 0 excluded)
             zero_guard = any(c_[0][0] == 'bin' and c_[0][1] in ('Eq', 'Ne') and derives_from(c_[0], lambda x: x[0] == 'field' and x[2] == '0' and x[1][0] == 'call') for c_ in p.conds) or \
                 any(strip_conv(c_[0])[0] == 'field' and strip_conv(c_[0])[2] == '0' and strip_conv(c_[0])[1][0] == 'call' and c_[1][0] == 'notin' and 0 in c_[1][1] for c_ in p.conds)
+            # the page count handed to dma_alloc is the very value the owner records (and later hands to dma_dealloc)
+            stored = [v for k, v in roles.items() if v.startswith('param')]
+            if allocs and stored:
+                a0 = strip_conv(allocs[0][3][0])
+                same = a0[0] == 'param' and ('param%d' % a0[1]) in stored
+                R.check(same, rule, 'ctor:allocated-count-is-recorded-count', where, 'dma_alloc(pages) and the recorded page count are the same parameter',
+                        'the region is allocated with %s pages but the owner records %s: Drop returns it to the platform with a different page count than it was '
+                        'allocated with' % (fmt(allocs[0][3][0])[:60], sorted(stored)))
             R.check(len(allocs) == 1 and zero_guard, rule, 'ctor:zero-address-checked', where, 'one allocation; zero physical address tested before the owner exists',
                     'constructor Ok path: %d allocations, zero-address test present=%s' % (len(allocs), zero_guard))
         errp = [p for p in paths if err_variant(p.ret) not in ('Ok', None)]
